@@ -743,7 +743,7 @@ def menu(st, paths):
         beyond_symlink = any(isinstance(st.wd.get(q), tuple) and st.wd[q][0] == "l" for q in wm.prefixes(p))  # git add: "beyond a symbolic link"
         if (e is not None or p in st.index or any(q.startswith(pre) for q in st.index)) and not beyond_symlink:
             ops.append(("stage", p))
-        if p in st.index or p in st.head:
+        if p in st.index or p in st.head or any(q.startswith(pre) for q in st.index) or any(q.startswith(pre) for q in st.head):
             ops.append(("unstage", p))
         if p in st.index:
             ops.append(("rmc", p))
@@ -980,9 +980,7 @@ def run_edits(acc, sid, ops, use_git, judge_last=True, expect_key=None):
                 nc = name_class(p)
                 acc.violation("%s:index-differs-from-model:%s:%s%s" % (where, cls, pk, "" if nc == "plain" else ",name=" + nc),
                               "%s: index entry %s is %r, expected %r (index now %s)" % (desc, _pn(p), idx.get(p), new.index.get(p), [_pn(x) for x in sorted(idx)]), rpl)
-                # status is still judged against the real index below, but successors are not explored
-                if judge_last:
-                    judge(acc, box, st.head, where, desc, rpl, use_git=use_git)
+                # model and implementation have diverged: one root cause, one key; successors are not explored
                 return None
             if judge_last:
                 r = judge(acc, box, st.head, where, desc, rpl, use_git=use_git)
